@@ -267,6 +267,12 @@ def wl_readonly(tier, seed):
                 out.append(gen.gen_readonly(seed * 1000 + 800 + i, idbase=i * IDSTEP, nb=nb, state=state, kt=gen.KTS[i % 5],
                                             nro=40 if tier == "quick" else 120, name="ro_%s%d_%s" % (nb[0][0], nb[1], state)))
                 i += 1
+    # lowest occupied bucket at a group border, every choice of the border (bytes and string keys: their hashes reach every bucket)
+    for j in range(7 if tier == "quick" else 28):
+        nb = (("BucketsSize", 16), ("BucketsSize", 128), ("BucketsSize", 1024), ("BucketsSize", 64))[j % 4]
+        out.append(gen.gen_readonly(seed * 1000 + 870 + j, idbase=i * IDSTEP, nb=nb, state="edge", kt=("bytes", "string")[j % 2],
+                                    nro=30 if tier == "quick" else 80, name="ro_edge%d" % j))
+        i += 1
     # every third history in the profile without debug assertions
     fast = out[2::3]
     rest = [x for i, x in enumerate(out) if i % 3 != 2]
@@ -285,7 +291,8 @@ def wl_twice(tier, seed):
         nb = rng.choice([("BucketsSize", 1), ("BucketsSize", 16), ("BucketsSize", 32), ("BucketsSize", 64), ("Capacity", 100), ("BucketsSize", 1024)])
         bufs = None if i % 2 == 0 else [rng.choice(gen.BUF_PARAMS) for _ in range(3)]
         out.append(gen.gen_twice(seed * 1000 + 900 + i, idbase=i * IDSTEP, nops=nops, nb=nb, kt=gen.KTS[i % 5], bufs=bufs, name="twice_%d" % i,
-                                 nkeys=20 if i % 2 else 3, tail=(i % 4 == 0), same_process=(i % 3 == 1), interleaved=(i % 4 == 3)))
+                                 nkeys=20 if i % 2 else 3, tail=(i % 4 == 0), same_process=(i % 3 == 1), interleaved=(i % 4 == 3),
+                                 reloc=(i % 4 in (1, 2))))
     return [("twice", out, dict(per_tlc=2 if tier == "quick" else 5, tlc_jobs=8, max_slots=300))]
 
 
@@ -445,7 +452,7 @@ PLANS = {
     "C10": dict(attr=["C10.", "C14.bulk_get", "C14.bulk_delete", "C01.result", "C04.items", "C05.content", "C05.nodup", "C02.content", "C01.outcome"], mc=lambda t: [_mc("MCCodec.tla", "MCCodec.cfg", workers=2)], workloads=wl_conv, assumptions=COMMON_ASSUME),
     "C07": dict(attr=["C07.", "C01.", "C02.content", "C04."], mc=lambda t: mc_buf(t) + MC_LAYOUT("quick") + [_mc("MCScan.tla", "MCScan_all8.cfg"), _mc("MCScan.tla", "MCScan_n32.cfg")], workloads=wl_params, assumptions=COMMON_ASSUME),
     "C11": dict(attr=["C11.", "C01.result", "C01.outcome", "C04.", "C02.content"], mc=lambda t: mc_db(t), proofs=["AbyRegProofs.tla"], workloads=wl_multi, assumptions=COMMON_ASSUME),
-    "C15": dict(attr=["C15.", "C02.content", "C05.content", "C05.count"], mc=lambda t: MC_STORE_Q + [_mc("MCScan.tla", "MCScan_all8.cfg"), _mc("MCScan.tla", "MCScan_n32.cfg")], workloads=wl_readonly, assumptions=COMMON_ASSUME),
+    "C15": dict(attr=["C15.", "C02.content", "C05.content", "C05.count", "C04.items", "C04.count"], mc=lambda t: MC_STORE_Q + [_mc("MCScan.tla", "MCScan_all8.cfg"), _mc("MCScan.tla", "MCScan_n32.cfg")], workloads=wl_readonly, assumptions=COMMON_ASSUME),
     "C18": dict(attr=["C18."], mc=lambda t: MC_STORE_Q, workloads=wl_twice, assumptions=COMMON_ASSUME),
     "C02": dict(attr=["C02.", "C01.result", "C01.outcome", "C05.content"], mc=lambda t: mc_buf(t) + mc_db(t), proofs=["AbyRegProofs.tla"], workloads=wl_reopen, assumptions=COMMON_ASSUME),
     "C03": dict(attr=["C03."], mc=lambda t: mc_buf(t, "pinned"), proofs=["AbyBufProofs.tla"], workloads=wl_sync, assumptions=COMMON_ASSUME),
@@ -455,7 +462,7 @@ PLANS = {
     "C01": dict(attr=["C01."], mc=lambda t: mc_store(t), workloads=wl_core, assumptions=COMMON_ASSUME),
     "C05": dict(attr=["C05."], mc=lambda t: mc_store(t), workloads=wl_core, assumptions=COMMON_ASSUME),
     "C06": dict(attr=["C06."], mc=lambda t: mc_store(t) + [_mc("MCStoreB_q.tla", "MCStoreB.cfg"), _mc("MCStoreB_q.tla", "MCStoreB_large.cfg", workers=2, witness="LargeBoundFalse")], workloads=wl_space, assumptions=COMMON_ASSUME),
-    "C09": dict(attr=["C09.", "C01.result", "C01.outcome"], mc=lambda t: MC_LAYOUT(t) + mc_store(t), proofs=["AbyLayoutProofs.tla"],
+    "C09": dict(attr=["C09.", "C01.result", "C01.outcome", "C04.items", "C04.count"], mc=lambda t: MC_LAYOUT(t) + mc_store(t), proofs=["AbyLayoutProofs.tla"],
                 workloads=wl_layout, assumptions=COMMON_ASSUME),
     "C17": dict(attr=["C17.", "C06.stats_terminate"], mc=lambda t: mc_store(t),
                 workloads=lambda tier, seed: [("statsync", [gen.gen_stats_sync(seed * 1000 + 30 + i, idbase=(970 + i) * IDSTEP, rounds=12 if tier == "quick" else 60, name="statsync_%d" % i)
